@@ -540,3 +540,49 @@ func VerifC01_StopOrderWithPromptWorker() {
 	rt.Assert(user.Status() == StatusOffline && dep.Status() == StatusOffline, "promptworker/offline")
 	rt.Reach("promptworker-end")
 }
+
+// ---- the Start() wrapper itself, with module management whose change-notify
+// function runs a management pass (as the documentation suggests): no start
+// routine begins while any module is still being prepped, and after Start
+// returned exactly the wanted modules are online ----
+
+func VerifC01_StartWrapper() {
+	resetModuleSystem()
+	rt.SchedYieldOnly(true)
+	initialStartCompleted.UnSet()
+	globalPrepFn, cmdLineOperation = nil, nil
+	shape := []int{0, 2}[rt.Choice("shape", 2)] // two free modules, or 1 -> 0
+	deps := dagShapes[shape]
+	lcFaults = 0
+	mods := buildDAG(shape)
+	EnableModuleManagement(func(*Module) {
+		_ = ManageModules()
+	})
+	for _, m := range mods {
+		m.Enable()
+	}
+	err := Start()
+	rt.Assert(err == nil, "startwrapper/start-ok")
+	rt.Quiesce(time.Second) // the notify workers have had their passes
+	// prep of every module has finished before any start routine begins
+	firstStart := -1
+	for j, ev := range lcTrace {
+		if ev.phase == 1 && !ev.end && firstStart < 0 {
+			firstStart = j
+		}
+	}
+	for j, ev := range lcTrace {
+		if ev.phase == 0 && firstStart >= 0 {
+			rt.Assert(j < firstStart, "startwrapper/every-prep-before-any-start")
+		}
+	}
+	for i, m := range mods {
+		rt.Assert(m.Status() == StatusOnline, "startwrapper/wanted-modules-online")
+		rt.Assert(countEv(i, 0, false, false) == 1, "startwrapper/prepped-once")
+		rt.Assert(countEv(i, 1, false, false) == 1, "startwrapper/started-once")
+	}
+	checkOrder(deps, "startwrapperorder")
+	shutdownFlag.Set()
+	_ = stopModules()
+	rt.Reach("startwrapper-end")
+}
